@@ -64,6 +64,13 @@ def run(res, args):
         positions = range(1, len(f)) if (res.tier == "thorough" or n < 30) else [rng.randint(1, len(f) - 1) for _ in range(6)]
         for k in positions:
             items.append(([("F", gen.rand_frame(rng, small=True))], f[:k], "truncation"))
+    # long runs of other data whose length sits on or next to a round buffer size, directly in front of a frame (and
+    # between two frames): wherever an implementation cuts long data into pieces, a frame may begin exactly at the cut
+    for base in (256, 512, 1024, 1029, 2048, 4096):
+        for dlt in (-1, 0, 1):
+            j = bytes((rng.getrandbits(8) % 0xD2) for _ in range(base + dlt))
+            items.append(([("J", j), ("F", gen.rand_frame(rng, small=True))], b"", "round-size-run"))
+            items.append(([("F", gen.rand_frame(rng, small=True)), ("J", j), ("F", gen.rand_frame(rng, small=True)), ("J", gen.rand_junk(rng))], b"", "round-size-run"))
     cases = ["stream %d debug %s" % (framing.T0, gen.hx(gen.flatten(segs) + tail)) for segs, tail, _ in items]
     impl, model = framing.run_both(res, "stream", cases, timeout=3000)
     if impl:
